@@ -278,6 +278,36 @@ func propPriv(args []string) string {
 			}
 		}
 	}
+	if sel != nil {
+		// a call that is rejected leaves nothing behind: every SELECT of the statement (at any depth) gets
+		// a source that is no source, the question is asked (it is refused, or answered; it must not panic),
+		// the source is taken out again, and the answer must be that of a statement that was never touched
+		// (round-7 seeded change C19-1: a re-entrancy mark on the statement was only cleared on success)
+		fresh, ferr := privStatement(text)
+		if ferr == nil {
+			want, werr := fresh.RequiredPrivileges()
+			var sels []*influxql.SelectStatement
+			influxql.WalkFunc(fresh, func(n influxql.Node) {
+				if s, ok := n.(*influxql.SelectStatement); ok {
+					sels = append(sels, s)
+				}
+			})
+			for i := len(sels) - 1; i >= 0; i-- {
+				s := sels[i]
+				kept := s.Sources
+				s.Sources = append(append(influxql.Sources{}, kept...), nil)
+				func() {
+					defer func() { recover() }()
+					fresh.RequiredPrivileges()
+				}()
+				s.Sources = kept
+				got, gerr := fresh.RequiredPrivileges()
+				if (werr == nil) != (gerr == nil) || fmt.Sprint(want) != fmt.Sprint(got) {
+					return fmt.Sprintf("%q: after a call that was refused (an invalid source put into SELECT #%d and taken out again) the statement answers %v (%v), before it answered %v (%v)", text, i, got, gerr, want, werr)
+				}
+			}
+		}
+	}
 	if isAdminKind(st) {
 		for _, p := range ps {
 			if !p.Admin {
